@@ -43,9 +43,9 @@ def run(ctx):
             if isinstance(r, Err) or not all(all(x) for x in r):
                 found.append({"key": {"seq": rq[1][0], "struct": "".join(rq[1][1])}, "input": rq[1],
                               "what": f"writing the kernel string of some rotation and reading it back: {r!r} "
-                                      "([same object, parsed description equal, read-back description equal, same through a rewritten file] per rotation; a strand named like the first domain is alive meanwhile)",
+                                      "([same object, parsed description equal, read-back description equal, same through a rewritten file, the same parsed line read again by the reader and in a second reader configuration with the parse tree left as parsed] per rotation; a strand named like the first domain is alive meanwhile)",
                               "snippet": "from dsdobjects import *; from dsdobjects.objectio import *; set_io_objects(); "
-                                         f"# build ComplexS from {rq[1]!r}, then read_pil_line('Y = ' + c.kernel_string)"})
+                                         f"# build ComplexS from {rq[1]!r}, then read_pil_line('Y = ' + c.kernel_string); also [line] = parse_pil_string(...), read_pil_line(line) more than once"})
         ctx.cov["correspondence"]["roundtrip(impl)"] = {"cases": len(rt), "failures": len(found)}
     ctx.cov["rule"] = ("domain-level-complementary complexes over PIL-legal names: every well-formed structure up to the tier's "
                        "length bound (sampled in quick), random large/deep ones; the model chain kernel_string -> Gallina PEG "
